@@ -241,3 +241,16 @@ example (opt : Bool) :
 
 end C02
 
+
+#print axioms C02.filter_iff_fixpoint
+#print axioms C02.grounded_below_every_complete
+#print axioms C02.grounded_is_complete
+#print axioms C02.pregrounded_same_complete
+#print axioms C02.complete_exact
+#print axioms C02.complete_store
+#print axioms C02.biodivine_complete_exact
+#print axioms C02.biodivine_complete_exact_ideal
+#print axioms C02.buildNative_fns
+#print axioms C02.complete_exact_from_formulas
+#print axioms C02.hybrid_complete_exact
+#print axioms C02.hybrid_complete_from_formulas
